@@ -827,7 +827,8 @@ def run_pipe(case):
         else:
             o2[k] = 7
         others.append(o2)
-    others.append(dict(options))
+    if case.get("family") == "mut" or any(d["k"] == "mut" for d in b.defs.values()):
+        others = [dict(options)] + others[:2]
     for o2 in others:
         CUR["options"] = o2
         fresh = Build(case).expr(case["expr"])
@@ -1614,7 +1615,7 @@ def mutable_family(seed: int, thorough: bool) -> List[dict]:
         return rng.choice([C(rng.choice(UNIVERSE)), O("SRC"), O("SRC", 5, True), C([1, 2]), C([])])
 
     def inputs():
-        return rng.sample(UNIVERSE, 3) + [rng.choice([[5], [], [[1]]])]
+        return rng.sample(UNIVERSE, 2) + [rng.choice([[5], [], [[1]]])]
 
     # (a) every constant x every spelling, the shapes in rotation
     i = 0
@@ -1643,8 +1644,9 @@ def mutable_family(seed: int, thorough: bool) -> List[dict]:
                 cs.append({"kind": "pipe", "steps": steps, "expr": expr, "options": options(), "inputs": inputs(),
                            "source": source(), "family": "mut"})
     # (b) such steps among the steps of the random generator, any bracketing, some used several times
-    for _ in range(600 if thorough else 150):
+    for _ in range(600 if thorough else 80):
         c = g.case(rng.choice([1, 2, 3, 4]))
+        c["inputs"] = c["inputs"][:3]
         leaves = leaves_of(c["expr"])
         for _ in range(rng.choice([1, 1, 2])):
             tag = len(c["steps"]) + 1
@@ -1683,7 +1685,9 @@ def mutable_family(seed: int, thorough: bool) -> List[dict]:
                 else:
                     bargs.append([pn, C(v)])
             h = {"k": "helper", "name": name, "args": bargs}
-            for expr in (["+", ["S", 1], ["S", 2]], ["+", ["+", ["S", 1], ["S", 2]], ["+", ["S", 1], ["S", 2]]]):
+            # (the lazy helpers -- chain / map objects -- fail on a record only when the result is consumed)
+            lazy = name in ("concat", "append", "map")
+            for expr in [["+", ["S", 1], ["S", 2]]] + ([] if lazy else [["+", ["+", ["S", 1], ["S", 2]], ["+", ["S", 1], ["S", 2]]]]):
                 cs.append({"kind": "pipe", "steps": [[1, h], [2, scrib]], "expr": expr, "options": [], "inputs": ins,
                            "source": C(ins[0]), "family": "mut"})
     # (d) the helper table on container arguments with function arguments that edit what they are called with
@@ -1721,8 +1725,6 @@ HELPER_MUT_CASES: Dict[str, List[Tuple[list, Any, str]]] = {
     "flatmap": [([("func", FN("mfree:f"))], [], "model oracle")],
     "into": [([("func", FN("mfree:f"))], [[1], 2], "model oracle"), ([("func", FN("mfree:f"))], DICT(["a", [1]]), "model oracle")],
     "map_values": [([("func", FN("mfree:f"))], DICT(["a", [1]]), "model oracle")],
-    "ensure": [([("__predicate", FN("mfree:f"))], [1], "model oracle")],
-    "all": [([("funcs", {"many": [FN("mfree:f"), FN("mfree:g")]})], [1], "model oracle")],
 }
 
 
